@@ -18,8 +18,8 @@ use crate::enc::hex;
 use crate::out::Out;
 use crate::rng::Rng;
 use crate::Args;
-use redis_sim::production::verif_hooks::run_connection;
-use redis_sim::production::{ConnectionConfig, ShardedActorState};
+use redis_sim::production::verif_hooks::{run_connection, run_connection_pooled};
+use redis_sim::production::{ConnectionConfig, ConnectionPool, ShardedActorState};
 use redis_sim::redis::RespParser;
 use serde_json::json;
 use std::collections::VecDeque;
@@ -32,6 +32,9 @@ use tokio::io::{AsyncRead, AsyncWrite, ReadBuf};
 pub struct Scripted {
     segs: VecDeque<Vec<u8>>,
     written: Arc<Mutex<Vec<u8>>>,
+    /// index (0-based) of the write call that fails: the client is gone / has stopped reading
+    fail_write_at: Option<usize>,
+    writes: usize,
 }
 
 impl AsyncRead for Scripted {
@@ -53,7 +56,12 @@ impl AsyncRead for Scripted {
 }
 
 impl AsyncWrite for Scripted {
-    fn poll_write(self: Pin<&mut Self>, _cx: &mut Context<'_>, buf: &[u8]) -> Poll<std::io::Result<usize>> {
+    fn poll_write(mut self: Pin<&mut Self>, _cx: &mut Context<'_>, buf: &[u8]) -> Poll<std::io::Result<usize>> {
+        let i = self.writes;
+        self.writes += 1;
+        if self.fail_write_at == Some(i) {
+            return Poll::Ready(Err(std::io::Error::new(std::io::ErrorKind::BrokenPipe, "client gone")));
+        }
         self.written.lock().unwrap().extend_from_slice(buf);
         Poll::Ready(Ok(buf.len()))
     }
@@ -105,12 +113,35 @@ impl Runner {
     /// one connection on a fresh 2-shard server: the segments, then EOF
     pub fn run(&self, cfg: &Cfg, segs: &[Vec<u8>]) -> ConnRun {
         let written = Arc::new(Mutex::new(Vec::new()));
-        let stream = Scripted { segs: segs.iter().cloned().collect(), written: written.clone() };
+        let stream = Scripted { segs: segs.iter().cloned().collect(), written: written.clone(), fail_write_at: None, writes: 0 };
         let ccfg = cfg.real();
         let r = catch_unwind(AssertUnwindSafe(|| {
             self.rt.block_on(async move {
                 let state = ShardedActorState::with_shards(2);
                 tokio::time::timeout(std::time::Duration::from_secs(10), run_connection(stream, state, ccfg)).await
+            })
+        }));
+        let end = match r {
+            Err(_) => End::Crash(crate::c15::last_panic()),
+            Ok(Err(_)) => End::Hang,
+            Ok(Ok(())) => End::Eof,
+        };
+        let w = written.lock().unwrap().clone();
+        ConnRun { written: w, end }
+    }
+}
+
+impl Runner {
+    /// one connection on a fresh 2-shard server whose buffers come from `pool` (shared with the
+    /// connections served before it); `fail_write_at` = the write call that fails
+    pub fn run_pooled(&self, cfg: &Cfg, segs: &[Vec<u8>], fail_write_at: Option<usize>, pool: Arc<ConnectionPool>) -> ConnRun {
+        let written = Arc::new(Mutex::new(Vec::new()));
+        let stream = Scripted { segs: segs.iter().cloned().collect(), written: written.clone(), fail_write_at, writes: 0 };
+        let ccfg = cfg.real();
+        let r = catch_unwind(AssertUnwindSafe(|| {
+            self.rt.block_on(async move {
+                let state = ShardedActorState::with_shards(2);
+                tokio::time::timeout(std::time::Duration::from_secs(10), run_connection_pooled(stream, state, ccfg, pool)).await
             })
         }));
         let end = match r {
@@ -385,6 +416,123 @@ fn check_malformed(cx: &mut Cx, cfg: &Cfg, cmds: &[Vec<Vec<u8>>], bad: &[u8], cl
     }
 }
 
+/// one client connection of a pooled case: segments, failing write call
+#[derive(Clone)]
+struct Conn {
+    segs: Vec<Vec<u8>>,
+    fail: Option<usize>,
+}
+
+fn pooled_op(cfg: &Cfg, pool_size: usize, conns: &[Conn]) -> String {
+    let cs: Vec<String> = conns
+        .iter()
+        .map(|c| {
+            let segs: Vec<String> = c.segs.iter().filter(|s| !s.is_empty()).map(|s| hex(s)).collect();
+            format!("{}/{}", if segs.is_empty() { "-".to_string() } else { segs.join(",") }, c.fail.map(|f| f.to_string()).unwrap_or("-".into()))
+        })
+        .collect();
+    format!("P {} {} 14 {} {} {} {}", cfg.min_pipeline, cfg.batch_threshold, cfg.read_size, cfg.max_buffer, pool_size, cs.join(";"))
+}
+
+/// a sequence of connections served one after the other by ONE server-wide buffer pool (each on a
+/// fresh keyspace).  Correspondence: every connection's replies vs the model's pooled server.
+/// Oracle: every connection receives exactly the bytes it receives when it is the only
+/// connection the server ever had.
+fn check_pooled(cx: &mut Cx, cfg: &Cfg, pool_size: usize, conns: &[Conn], src: &str) {
+    let pool = Arc::new(ConnectionPool::new(64, pool_size));
+    let mut lines = Vec::new();
+    let mut bad: Option<(usize, String, String)> = None;
+    for (i, c) in conns.iter().enumerate() {
+        let r = cx.runner.run_pooled(cfg, &c.segs, c.fail, pool.clone());
+        let (line, _) = line_of(&r);
+        let solo = cx.runner.run_pooled(cfg, &c.segs, c.fail, Arc::new(ConnectionPool::new(64, pool_size)));
+        if (r.written != solo.written || r.end != solo.end) && bad.is_none() {
+            let (sl, _) = line_of(&solo);
+            bad = Some((i, line.clone(), sl));
+        }
+        lines.push(line);
+    }
+    let op = pooled_op(cfg, pool_size, conns);
+    cx.out.op(op.clone(), lines.join(" | "));
+    cx.out.count(&format!("pooled:{}:pool={}:conns={}", src, pool_size, conns.len()));
+    cx.out.case(&op, conns.len() >= 2);
+    if let Some((i, got, solo)) = bad {
+        cx.out.violation("C04:cross-connection:stale-buffer", &format!("connection {} of a server with a shared buffer pool is answered differently from the same connection on a server that never had another client: bytes left in a pooled buffer by an earlier connection leak into it", i),
+            json!({"op": op, "connection": i, "observed": got, "expected_as_when_alone": solo, "all_connections": lines, "source": src}));
+    }
+}
+
+fn pipeline_conn(cmds: &[Vec<&[u8]>], one_segment: bool) -> Conn {
+    let frames: Vec<Vec<u8>> = cmds.iter().map(|c| frame(c)).collect();
+    let segs = if one_segment { vec![frames.concat()] } else { frames };
+    Conn { segs, fail: None }
+}
+
+fn pooled_corpus(cx: &mut Cx) {
+    let d = Cfg::default_like();
+    let victim = pipeline_conn(&[vec![b"SET", b"k", b"v"], vec![b"GET", b"k"], vec![b"PING"]], true);
+    // an earlier client disconnects in the middle of a frame, at every cut position
+    let f = frame(&[b"GET", b"abcde"]);
+    for cut in 1..f.len() {
+        for pool_size in [1usize, 2, 3, 16] {
+            if pool_size != 1 && cut % 3 != 0 {
+                continue;
+            }
+            let early = Conn { segs: vec![f[..cut].to_vec()], fail: None };
+            check_pooled(cx, &d, pool_size, &[early, victim.clone(), victim.clone()], "corpus:mid-frame");
+        }
+    }
+    // an earlier client stops reading: its replies stay in the write buffer
+    let talk = pipeline_conn(&[vec![b"PING"], vec![b"ECHO", b"left-over"], vec![b"PING"]], false);
+    for pool_size in [1usize, 2, 3, 4, 16] {
+        for fail in [0usize, 1, 2] {
+            let early = Conn { segs: talk.segs.clone(), fail: Some(fail) };
+            check_pooled(cx, &d, pool_size, &[early, victim.clone(), victim.clone()], "corpus:write-error");
+        }
+    }
+    // an earlier client overflows max_buffer_size: the error reply stays in the write buffer
+    let small = Cfg { min_pipeline: 60, batch_threshold: 2, read_size: 8192, max_buffer: 48 };
+    let big = Conn { segs: vec![vec![b'x'; 20], vec![b'y'; 40]], fail: None };
+    let pings = pipeline_conn(&[vec![b"PING"], vec![b"PING"]], false);
+    for pool_size in [1usize, 2, 3, 16] {
+        check_pooled(cx, &small, pool_size, &[big.clone(), pings.clone(), pings.clone()], "corpus:overflow");
+    }
+}
+
+fn pooled_random(cx: &mut Cx, rng: &mut Rng) {
+    let cfg = config(rng);
+    let pool_size = *rng.pick(&[1usize, 2, 2, 3, 4, 16]);
+    let n = rng.range(2, 5) as usize;
+    let mut conns = Vec::new();
+    for _ in 0..n {
+        let (_, stream, bounds) = gen_pipeline(rng);
+        let mut segs = segmentation(rng, &stream, &bounds);
+        let mut fail = None;
+        match rng.below(5) {
+            0 => {
+                // disconnect mid-stream: keep a random prefix of the bytes
+                let total: usize = segs.iter().map(|s| s.len()).sum();
+                let keep = rng.below(total as u64 + 1) as usize;
+                let mut left = keep;
+                let mut cutsegs = Vec::new();
+                for sgm in segs {
+                    if left == 0 {
+                        break;
+                    }
+                    let k = sgm.len().min(left);
+                    cutsegs.push(sgm[..k].to_vec());
+                    left -= k;
+                }
+                segs = cutsegs;
+            }
+            1 => fail = Some(rng.below(3) as usize),
+            _ => {}
+        }
+        conns.push(Conn { segs, fail });
+    }
+    check_pooled(cx, &cfg, pool_size, &conns, "random");
+}
+
 fn fixed_corpus(cx: &mut Cx) {
     let d = Cfg::default_like();
     let ping = frame(&[b"PING"]);
@@ -440,6 +588,7 @@ fn run_inner(a: &Args) {
     let mut cx = Cx { out: Out::new(&a.out), runner: Runner::new() };
     let mut rng = Rng::new(a.seed);
     fixed_corpus(&mut cx);
+    pooled_corpus(&mut cx);
     // deterministic sweep: GET/SET runs of depth 1..7 around both thresholds, whole / per-command / 1-byte
     for depth in 1..=7usize {
         for mode in 0..2 {
@@ -461,6 +610,10 @@ fn run_inner(a: &Args) {
     let mut done = 0;
     while done < a.n {
         done += 1;
+        if done % 6 == 0 {
+            pooled_random(&mut cx, &mut rng);
+            continue;
+        }
         let cfg = config(&mut rng);
         let (cmds, stream, bounds) = gen_pipeline(&mut rng);
         if rng.chance(1, 5) {
